@@ -125,13 +125,34 @@ def generic_iter_param_is_finite(fx, path, b):
     return n_calls > 0
 
 
+def opaque_iter_source(fx, loop_node, parents):
+    for q in reversed(parents):
+        if q.get("k") == "Match" and "ForLoopDesugar" in q.get("src", "") and any(x is loop_node for x in F.walk(q)):
+            sc = F.strip(q["scrut"])
+            if not F.is_call(sc, "std::iter::IntoIterator::into_iter") or not sc.get("args"):
+                return None
+            e = F.strip(sc["args"][0])
+            if e.get("k") == "Call" and "fn" in e:
+                tgt = fx.by_dp.get(e["fn"].get("dp"))
+                hb = fx.bodies.get(tgt) if tgt else None
+                if hb is not None and hb["krate"] == "proguard" and hb.get("kind") in ("Fn", "AssocFn"):
+                    t_ = F.strip(hb["body"])
+                    while t_.get("k") == "Block" and t_.get("tail") is not None:
+                        t_ = F.strip(t_["tail"])
+                    if any(x.get("k") == "Return" for x in F.walk(hb["body"])):
+                        return None
+                    return t_.get("ty")
+            return None
+    return None
+
+
 def check_loops(fx, rep, rule, seen, sfx=""):
     n_loops = 0
     for p in sorted(seen):
         b = fx.bodies[p]
         if b["krate"] != "proguard":
             continue
-        for n in F.walk(b["body"]):
+        for n, parents in F.walk_with_parents(b["body"]):
             if n.get("k") == "Loop":
                 n_loops += 1
                 how = loop_ok(n)
@@ -139,6 +160,13 @@ def check_loops(fx, rep, rule, seen, sfx=""):
                 if how is not None and not fin and " over impl " in how and generic_iter_param_is_finite(fx, p, b):
                     fin = True
                     how += " (every local caller passes a finite iterator)"
+                if how is not None and not fin and " over impl " in how:
+                    # `for x in self.parsed_records()`: the opaque result of a private function - its hidden type is the type of
+                    # the expression that function returns
+                    hid = opaque_iter_source(fx, n, parents)
+                    if hid and any(t in hid for t in FINITE_ITERS):
+                        fin = True
+                        how += " (hidden type of the callee's result: %s)" % hid[:120]
                 rep.check(rule + sfx, "%s/loop/%s/%s" % (rule, C.short_fn(p), (how or "unrecognised").split(" over ")[-1]),
                           fin, loc=F.loc(n), found=how or "loop that is not a for/while-let over an iterator",
                           expected="loop driven by a finite in-memory iterator (termination)")
